@@ -35,13 +35,13 @@ macro_rules! prefix {
 prefix!(c07_ba_0, prefix_sums_binary_ascent, 0, 4);
 // @harness c07_ba_1 | C07 | bounded | binary ascent, length 1
 prefix!(c07_ba_1, prefix_sums_binary_ascent, 1, 4);
-// @harness c07_ba_5 | C07 | bounded | binary ascent, length 5
+// @harness c07_ba_5 | C07 C01 | bounded | binary ascent, length 5
 prefix!(c07_ba_5, prefix_sums_binary_ascent, 5, 8);
 // @harness c07_ba_8 | C07 | bounded | binary ascent, length 8
 prefix!(c07_ba_8, prefix_sums_binary_ascent, 8, 11);
 // @harness c07_sq_1 | C07 | bounded | sqrt trick, length 1
 prefix!(c07_sq_1, prefix_sums_sqrt_trick, 1, 4);
-// @harness c07_sq_7 | C07 | bounded | sqrt trick, length 7
+// @harness c07_sq_7 | C07 C01 | bounded | sqrt trick, length 7
 prefix!(c07_sq_7, prefix_sums_sqrt_trick, 7, 10);
 // @harness c07_sq_15 | C07 | bounded | sqrt trick, length 15 (largest length routed to it)
 prefix!(c07_sq_15, prefix_sums_sqrt_trick, 15, 18);
@@ -49,7 +49,7 @@ prefix!(c07_sq_15, prefix_sums_sqrt_trick, 15, 18);
 prefix!(c07_st_1, prefix_sums_segment_tree, 1, 4);
 // @harness c07_st_2 | C07 | bounded | segment tree, length 2
 prefix!(c07_st_2, prefix_sums_segment_tree, 2, 5);
-// @harness c07_st_3 | C07 | bounded | segment tree, length 3
+// @harness c07_st_3 | C07 C01 | bounded | segment tree, length 3
 prefix!(c07_st_3, prefix_sums_segment_tree, 3, 6);
 // @harness c07_st_4 | C07 | bounded | segment tree, length 4
 prefix!(c07_st_4, prefix_sums_segment_tree, 4, 7);
